@@ -24,7 +24,8 @@ OPS = ['bool', 'oracles', 'counts', 'table', 'fulltable', 'plot', 'full', 'rst',
 BOUNDS = {'quick': {'kinds': KINDS, 'datasets': '1-d 3 bins (1 or 2 compared datasets, named or anonymous); 2-d (2,2) for Student',
                     'failing pattern': 'every subset of bins (solver-chosen)', 'operations': 'sequences of 2 out of ' + ', '.join(OPS),
                     'verbosity': 'all 6 levels'},
-          'thorough': {'kinds': KINDS, 'operations': 'sequences of 3', 'verbosity': 'all 6 levels'}}
+          'thorough': {'kinds': KINDS, 'datasets': 'as quick + scalar and 2-d with 2 compared datasets',
+                       'operations': 'sequences of 2 at all 6 verbosity levels; sequences of 3 at the lowest / highest verbosity (1-d, one dataset)'}}
 ASSUMPTIONS = ['cell values are concrete distinct numbers; the failing pattern, result kind, verbosities and operation sequence are solver-chosen',
                'plot representation = plot templates only (no matplotlib rendering)',
                'pickle / deepcopy act on concrete values (C boundary)',
@@ -34,7 +35,7 @@ EXPLANATION = ('bounded symbolic execution (symrun + z3: solver-chosen result ki
                'representation / formatting / counting code; deep snapshot before == after each operation')
 
 
-def apply_op(ex, res, op, step):
+def apply_op(ex, res, op, step, few_verbs=False):
     from valjean.javert.verbosity import Verbosity
     from valjean.javert.representation import (Representation, TableRepresenter, FullTableRepresenter, PlotRepresenter,
                                                FullRepresenter)
@@ -43,6 +44,8 @@ def apply_op(ex, res, op, step):
     from valjean.gavroche.diagnostics.stats import classification_counts, TestOutcome
     from valjean.cosette.task import TaskStatus
     verbs = list(Verbosity)
+    if few_verbs:
+        verbs = [verbs[0], verbs[-1]]
     if op == 'bool':
         bool(res)
     elif op == 'oracles':
@@ -73,7 +76,7 @@ def apply_op(ex, res, op, step):
             pass          # locally defined stub classes are not picklable: not the subject
 
 
-def make_harness(kind, shape, nds, named, nops):
+def make_harness(kind, shape, nds, named, nops, few_verbs=False):
     def harness(ex):
         res, info = build_result(ex, kind, shape, nds, named)
         # determinism / repeatability of evaluation
@@ -86,20 +89,20 @@ def make_harness(kind, shape, nds, named, nops):
             op = OPS[ex.choice(len(OPS), f'op{step}')]
             ex.note(f'op{step}', op)
             try:
-                apply_op(ex, res, op, step)
+                apply_op(ex, res, op, step, few_verbs)
             except Exception as e:      # noqa  -- a representer that crashes is C12's business
                 ex.note(f'op{step}-raised', type(e).__name__)
             ex.check(full_snapshot(res) == base, f'{op}:leaves-verdict-statistics-and-inputs-unchanged')
     return harness
 
 
-def _job(kind, shape, nds, named, nops, timeout_ms, seed=0):
-    return run_sym('x', make_harness(kind, shape, nds, named, nops), timeout_ms=timeout_ms, seed=seed, max_paths=3000000)
+def _job(kind, shape, nds, named, nops, timeout_ms, seed=0, few_verbs=False):
+    return run_sym('x', make_harness(kind, shape, nds, named, nops, few_verbs), timeout_ms=timeout_ms, seed=seed, max_paths=3000000)
 
 
 def jobs(tier):
     out = []
-    nops = 2 if tier == 'quick' else 3
+    nops = 2
     for kind in KINDS:
         if kind in ('equal', 'approx', 'student', 'bonferroni', 'holm'):
             combos = [('1d', 1, False), ('1d', 2, True)]
@@ -113,6 +116,10 @@ def jobs(tier):
             n_ops = nops if not (tier == 'quick' and nds == 2) else 1
             out.append((f'{kind}-{shape}-n{nds}-{"named" if named else "anon"}-ops{n_ops}', _job,
                         dict(kind=kind, shape=shape, nds=nds, named=named, nops=n_ops, timeout_ms=20000)))
+        if tier == 'thorough':
+            # sequences of three operations, lowest / highest verbosity only
+            out.append((f'{kind}-1d-n1-named-ops3-fewverbs', _job,
+                        dict(kind=kind, shape='1d', nds=1, named=True, nops=3, timeout_ms=20000, few_verbs=True)))
     return out
 
 
@@ -120,5 +127,6 @@ def replay(rp):
     for j in jobs('thorough') + jobs('quick'):
         if j[0] == rp['job']:
             p = j[2]
-            return replay_sym(make_harness(p['kind'], p['shape'], p['nds'], p['named'], p['nops']), rp['inputs'])
+            return replay_sym(make_harness(p['kind'], p['shape'], p['nds'], p['named'], p['nops'], p.get('few_verbs', False)),
+                              rp['inputs'])
     raise KeyError(rp['job'])
